@@ -52,7 +52,7 @@ T = {
 }
 
 DESIGN = {p: f'DESIGN.md §7 {p}' for p in T}
-READY = [f'C{i:02d}' for i in range(1, 21) if i != 12]   # C12: model being updated for the Number formatting repair
+READY = [f'C{i:02d}' for i in range(1, 21)]
 ALL = [f'C{i:02d}' for i in range(1, 21)]
 NOT_YET = 'check not claimed yet in this session (its machinery is being built; claimed once it exits 0 on the unchanged tree)'
 
